@@ -145,6 +145,14 @@ def run_case(case, tier):
                 a = cl
             else:
                 b = cl
+            if rng.random() < 0.5:
+                # ... next to a whole protein: many more iterative groups in the union than in the part
+                big = sources.full_protein(rng.choice(("1FTJ-Chain-A.pdb", "3SGB.pdb", "1HPX.pdb")))
+                if a is cl:
+                    b = big
+                else:
+                    a = big
+                classes.append("capped-part-with-whole-protein")
         if rng.random() < 0.25:
             # an incomplete residue in one part: a carboxylate without its oxygens, an amide without N ...
             tgt = a if rng.random() < 0.5 else b
@@ -166,7 +174,39 @@ def run_case(case, tier):
     if not pdbio.atoms(a) or not pdbio.atoms(b):
         return util.finish(case, viol, counts, classes, False, {"skipped": "empty part"}, inconclusive="empty part")
     used = {r.chain for r in a if r.raw is None}
-    b = relabel_chains(b, used, rng)
+    same_ligand = None
+    if case["kind"] != "files" and rng.random() < 0.3:
+        # the same kind of ligand molecule in both parts (after the chain decision below possibly in
+        # the same chain, under another residue number: its groups then carry identical labels)
+        from .. import fragments
+        same_ligand = rng.choice(sorted(fragments.FRAGMENTS))
+        for tgt, num in ((a, 901), (b, 902)):
+            ch = [r.chain for r in tgt if r.raw is None][0]
+            frag, _, _ = fragments.place_near(tgt, same_ligand, rng, dist_A=rng.uniform(3.0, 8.0), chain=ch, resnum=num)
+            if frag:
+                tgt.extend(frag)
+        classes.append("same-ligand-in-both-parts")
+    if case["kind"] != "files" and rng.random() < 0.3:
+        # B keeps chain identifiers that A uses too; its residues get numbers A does not use
+        ach = sorted(used)
+        m = {}
+        top = max([r.resnum for r in a if r.raw is None] + [0])
+        off = top + 1000 - min(r.resnum for r in b if r.raw is None)
+        if max(r.resnum for r in b if r.raw is None) + off <= 9999:
+            nb = []
+            for r in b:
+                if r.raw is None:
+                    if r.chain not in m:
+                        m[r.chain] = ach[len(m) % len(ach)]
+                    r = r.copy()
+                    r.resnum += off + 2000 * (list(m).index(r.chain) // len(ach))
+                    r.chain = m[r.chain]
+                nb.append(r)
+            if max(r.resnum for r in nb if r.raw is None) <= 9999 and sources.identities_unique(a + nb):
+                b = nb
+                classes.append("parts-share-chain-identifiers")
+    if "parts-share-chain-identifiers" not in classes:
+        b = relabel_chains(b, used, rng)
     b, m2 = place(a, b, case["d"], rng)
     a, b, ok = fit_both(a, b)
     d_real = math.sqrt(m2) / 1000.0
